@@ -1065,6 +1065,7 @@ fn cmd_run(args: &Args) -> i32 {
                 "o6_conversion_full_sweeps": sweep_counters.get(C::o6_full_sweeps),
                 "o6_utc_instants_probed": sweep_counters.get(C::o6_utc_probes),
                 "o6_tai_instants_probed": sweep_counters.get(C::o6_tai_probes),
+                "o6_zone_designator_strings_judged": sweep_counters.get(C::o6_zone_strings_judged) + out_counters.get(C::o6_zone_strings_judged),
             },
             "known_finding_hits": {
                 "KF1": kf_hits[0].1,
